@@ -378,7 +378,13 @@ class HashRule(ABC):
         :param blacklist:  List of objects to exclude from dependency sets (recursively).
 
         """
-        if hasattr(src_fn, "__globals__"):
+        # The symbols were read from the source of the innermost wrapped function (see
+        # list_dotted_names), so they are resolved in that function's module, which is not
+        # the module of the wrapper when the decorator is defined elsewhere
+        inner_fn = inspect.unwrap(src_fn) if callable(src_fn) else src_fn
+        if hasattr(inner_fn, "__globals__"):
+            global_table = inner_fn.__globals__
+        elif hasattr(src_fn, "__globals__"):
             global_table = src_fn.__globals__
         else:
             # Cannot visit this dependency if there is no global scope
